@@ -10,8 +10,8 @@
    ("one gzip stream holding the writes ws"); theorems quantify over every codec [gz]/[gunzip]
    with gunzip (gz ws) = Some (concat ws), the harness decodes with Go's compress/gzip.
 
-   Everything that is a table in the Go source (skip list, default extensions, sibling
-   priority) is a Section variable here; the judge instantiates it with the lists regenerated
+   Everything that is a table in the Go source (default extensions, sibling priority) is a
+   Section variable / parameter here; the judge instantiates it with the lists regenerated
    from the Go AST (Gen_C18.v), the theorems hold for every list. *)
 Require Import V.Lib V.GoPath V.Gen_C18.
 Require V.C18_LibPack.   (* not imported: only so that it is built with the model; case files import it *)
@@ -79,6 +79,7 @@ Definition K_ETAG : bytes := bs "Etag".
 Definition K_CT : bytes := bs "Content-Type".
 Definition K_XCTO : bytes := bs "X-Content-Type-Options".
 Definition GZIP : bytes := bs "gzip".
+Definition IDENTITY : bytes := bs "identity".
 Definition V_AE : bytes := bs "Accept-Encoding".
 Definition WEAK : bytes := bs "W/".
 Definition STAR : bytes := bs "*".
@@ -158,13 +159,18 @@ Definition wire (head : bool) (u : uw) : bytes :=
 End Codec.
 
 (* ---------- vocabulary of the theorems ---------- *)
+(* Content-Encoding values that name no coding ("" and "identity"), and the codings a header names *)
+Definition is_identity (v : bytes) : bool := beq v [] || beq v IDENTITY.
+Definition no_coding (vals : list bytes) : bool := forallb is_identity vals.
+Definition codings (vals : list bytes) : list bytes := filter (fun v => negb (is_identity v)) vals.
+
 Section Client.
 Variable gz : list bytes -> bytes.
 Variable gunzip : bytes -> option bytes.
 (* what a client honouring Content-Encoding obtains (None: it cannot decode the response) *)
 Definition client_body (head : bool) (u : uw) : option bytes :=
   if bodyless head (r_status u) then Some []
-  else match r_ce u with
+  else match codings (r_ce u) with
        | [] => Some (wire gz head u)
        | [c] => if beq c GZIP then gunzip (wire gz head u) else None
        | _ => None
@@ -175,7 +181,7 @@ Definition client_body (head : bool) (u : uw) : option bytes :=
 Definition transparent (head : bool) (out inn : uw) : Prop :=
   r_status out = r_status inn /\
   ((r_ce out = r_ce inn /\ wire gz head out = wire gz head inn) \/
-   (r_ce inn = [] /\ r_ce out = [GZIP] /\
+   (no_coding (r_ce inn) = true /\ r_ce out = [GZIP] /\
     (bodyless head (r_status out) = true \/ gunzip (wire gz head out) = Some (wire gz head inn)))).
 (* Content-Length, when the handler chain fixes it, is the length of what is sent *)
 Definition cl_correct (head : bool) (u : uw) : Prop :=
@@ -188,17 +194,19 @@ Definition weak_of (e : bytes) : bytes :=
 Record gcfg := { c_exts : list bytes; c_not : list bytes; c_min : Z (* 0 = no min_length *) }.
 
 Section Tables.
-Variable sl : list bytes.            (* SkipCompressedFilter's list *)
 Variable dexts : list bytes.         (* defaultExtensions *)
 
-Definition skip_ok (ce : bytes) : bool := negb (existsb (beq ce) sl).
+(* SkipCompressedFilter.ShouldCompress: false as soon as one Content-Encoding value is neither
+   "" nor "identity" *)
+Definition skip_ok (ces : list bytes) : bool :=
+  forallb (fun e => negb (negb (beq e []) && negb (beq e IDENTITY))) ces.
 Definition length_ok (min : Z) (cl : bytes) : bool :=
   match parse_int cl with
   | None => false
   | Some n => negb (n =? 0)%Z && negb (min =? 0)%Z && (min <=? n)%Z
   end.
 Definition resp_ok (c : gcfg) (h : headers) : bool :=
-  skip_ok (hget h K_CE) && (if (c_min c =? 0)%Z then true else length_ok (c_min c) (hget h K_CL)).
+  skip_ok (hvals h K_CE) && (if (c_min c =? 0)%Z then true else length_ok (c_min c) (hget h K_CL)).
 
 Definition req_ok (cs : bool) (path : bytes) (c : gcfg) : bool :=
   negb (existsb (path_matches cs path) (c_not c)) &&
@@ -305,8 +313,7 @@ Definition static_script (prio : list (bytes * bytes)) (head : bool) (ae : bytes
   fst (static_hdrs prio ae data sibs) ++
   OWriteHeader 200 :: (if head then [] else [OWrite (snd (static_hdrs prio ae data sibs))]).
 
-(* the tables as they were when the property was written (for the refutation witnesses) *)
-Definition skip_snapshot : list bytes := [bs "gzip"; bs "compress"; bs "deflate"; bs "br"].
+(* the table as it was when the property was written (for the examples) *)
 Definition priority_snapshot : list (bytes * bytes) :=
   [(bs "zstd", bs ".zst"); (bs "br", bs ".br"); (bs "gzip", bs ".gz")].
 
@@ -380,6 +387,9 @@ Definition cl_ok (o : obs) : bool :=
   | [v] => match parse_int v with Some n => (n =? Z.of_nat (length (o_body o)))%Z | None => false end
   | _ => false
   end.
+(* the inner response names no coding: no Content-Encoding, or only empty / "identity" values *)
+Definition ce_none (vals : list bytes) : bool :=
+  forallb (fun v => beq v [] || beq v (bs "identity")) vals.
 Definition spec_common (head : bool) (ae : bytes) (G P : obs) : bool :=
   (o_status G =? o_status P)%Z &&
   (o_err P || negb (o_err G)) &&
@@ -388,7 +398,7 @@ Definition spec_common (head : bool) (ae : bytes) (G P : obs) : bool :=
      (* the client decodes to the same content *)
      o_vok G && o_vok P && lbeq (o_vcod G) (o_vcod P) && beq (o_view G) (o_view P) &&
      (* Content-Encoding names exactly what was applied; encoded responses are left alone *)
-     (same_repr G P || (lbeq (o_ce P) [] && lbeq (o_ce G) [GZIP] && obeq (o_gunz G) (Some (o_body P)))) &&
+     (same_repr G P || (ce_none (o_ce P) && lbeq (o_ce G) [GZIP] && obeq (o_gunz G) (Some (o_body P)))) &&
      (* Content-Length absent or correct *)
      cl_ok G) &&
   (* no gzip offered: the response is the identity one *)
@@ -417,7 +427,7 @@ Definition judge (c : case) : N :=
   match c with
   | CScript cs cfgs head path ae script ret errbody G P =>
       let s := with_error_page script ret errbody in
-      let mg := gzip_serve gen_c18_skip gen_c18_default_exts cs cfgs path ae s in
+      let mg := gzip_serve gen_c18_default_exts cs cfgs path ae s in
       let mp := run_plain s in
       verdict (agree_obs head mg G && agree_obs head mp P && agree_etag mg mp G P)
               (spec_common head ae G P)
@@ -426,7 +436,7 @@ Definition judge (c : case) : N :=
                | Some d => static_script gen_c18_static_priority head ae d sibs
                | None => with_error_page [] 404 errbody
                end in
-      let mg := gzip_serve gen_c18_skip gen_c18_default_exts cs cfgs path ae s in
+      let mg := gzip_serve gen_c18_default_exts cs cfgs path ae s in
       let mp := run_plain s in
       verdict (agree_obs head mg G && agree_obs head mp P && agree_etag mg mp G P)
               (spec_common head ae G P && spec_static head ae data G)
